@@ -24,7 +24,9 @@ PTRS = {
     'y': Spec('PTR', T1, alias='Y._http._tcp.local.'),
     'z': Spec('PTR', T2, alias='Z._ipp._tcp.local.'),
     'z2': Spec('PTR', T1, alias='Z2._http._tcp.local.'),
+    'xu': Spec('PTR', T1, alias='x._HTTP._TCP.local.'),  # the record x with its instance name spelled in another case
 }
+SAME_RECORD = {'xu': 'x'}
 TTL_MAX = 2**31 - 1
 
 
@@ -134,6 +136,7 @@ def make(shape: Dict[str, Any]) -> Any:
             loop.now_ms = loop.now_ms + gap
             now = loop.now_ms
             spec = PTRS[key]
+            key = SAME_RECORD.get(key, key)  # record identity ignores letter case: one refresh chain
             if op == 'goodbye':
                 ttl: Any = 0
             elif ttl_fixed is not None:
@@ -190,6 +193,8 @@ QUICK = {
     'two-types-apart': sh(types=[T1, T2], events=[('learn', 'x', 4), ('learn', 'z', 1)], steps=5),
     'refresh': sh(events=[('learn', 'x', 4), ('refresh', 'x', 1)], steps=5),
     'goodbye': sh(events=[('learn', 'x', 4), ('goodbye', 'x', 1)], steps=4),
+    'refresh-recased': sh(events=[('learn', 'x', 4), ('refresh', 'xu', 1)], steps=5),
+    'goodbye-recased': sh(events=[('learn', 'x', 4), ('goodbye', 'xu', 1)], steps=4),
     'two-records-close-fixed-ttl': sh(events=[('learn', 'x', 5), ('learn', 'y', 0)], steps=6, ttl_fixed=1125, gap_max=9000),
     'two-records-fixed-ttls': sh(events=[('learn', 'x', 4), ('learn', 'y', 1)], steps=6, ttl_fixed=[1200, 1130], gap_max=9000),
     'three-records-fixed-ttls': sh(events=[('learn', 'x', 4), ('learn', 'y', 1), ('learn', 'z2', 0)], steps=6, ttl_fixed=[4500, 1200, 1200], gap_max=9000),
@@ -230,7 +235,7 @@ META = {
         'RecordManager.async_updates_from_response/async_add_listener', 'DNSRecord.get_expiration_time/is_stale', 'QuestionHistory.suppresses/add_question_at_time',
     ],
     'bounds': {'t0': [1000, 2**40], 'ttl': [1, TTL_MAX], 'event instants': 'after an enumerated number of timers, anywhere before the next one (gap 0..30 s / 60 s)', 'timer steps after the last event': '4..8', 'browser delay': '10 s (quick); 1 s, 10 s, 60 s (thorough)', 'records': '<= 3'},
-    'outside': ['histories beyond the stepped horizon (the third rescue query of a long-lived record may lie outside it)', 're-cased aliases', 'unicast browsers (addr given)'],
+    'outside': ['histories beyond the stepped horizon (the third rescue query of a long-lived record may lie outside it)', 'unicast browsers (addr given)'],
     'stubs': env.STUBS,
     'float_sites': [
         'RESCUE_RECORD_RETRY_TTL_PERCENTAGE = 0.1 times ttl*1000 is taken as exactly ttl*100: STATED, NOT SOLVED (vkit/floatlemmas.py L-tenth gives the argument; z3 and cvc5 timed out on the QF_BVFP query)',
